@@ -236,3 +236,43 @@ def run(F, S, R, tier):
         else:
             R.bad("cmp/retention/tip", "clean_expired_orphans does not measure expiry against the tip header's epoch", [ce.where()])
     R.guard("cmp/retention", retention)
+
+    # 8. fork bookkeeping: dirty_exts[i] must stay aligned with attached_blocks[verified_len + i] (reconcile zips them)
+    def fork_alignment():
+        n = 0
+        for b in F.bodies_of_crate("ckb_chain"):
+            for c in b.calls_to(r"VecDeque::<.*>::push_(front|back)$"):
+                srcs = b.operand_sources(c.args[0])
+                fld = None
+                for f in ("dirty_exts", "attached_blocks", "detached_blocks"):
+                    if any(s_.endswith("ForkChanges." + f) for s_ in srcs):
+                        fld = f
+                if fld is None:
+                    continue
+                n += 1
+                R.fn(b)
+                end = "front" if c.callee.endswith("push_front") else "back"
+                fn = b.path.split("::")[-1]
+                if fld in ("dirty_exts", "attached_blocks"):
+                    want = "front"      # both are filled walking from the new tip down to the fork point
+                else:
+                    want = {"alignment_fork": "back", "make_fork_for_truncate": "back", "find_fork_until_latest_common": "front"}.get(fn)
+                if want is None:
+                    R.bad("paired/fork-ends/" + fn, "unlisted writer of ForkChanges.%s: %s (%s)" % (fld, b.path, c.where()), [c.where()])
+                elif end != want:
+                    R.bad("paired/fork-ends/%s/%s" % (fn, fld), "%s pushes ForkChanges.%s at the %s, the walk direction requires push_%s (exts and blocks are zipped positionally in reconcile_main_chain)" % (fn, fld, end, want), [c.where()])
+                else:
+                    R.ok("paired/fork-ends/%s/%s" % (fn, fld), "%s fills ForkChanges.%s with push_%s" % (fn, fld, end), [c.where()])
+        R.sites += n
+        if n < 9:
+            R.bad("paired/fork-ends/anchor-lost", "expected >=9 pushes onto ForkChanges deques in ckb-chain, found %d" % n, [])
+        # the ext and the block pushed in one step belong to the same hash
+        for fn in ("alignment_fork", "find_fork_until_latest_common"):
+            b = F.need(VERIFY + fn)
+            ge = [c for c in b.calls_to(r"ChainStore::get_block_ext$")]
+            gb = [c for c in b.calls_to(r"ChainStore::get_block$") if K.src_match(b.operand_sources(c.args[1]), [r"field:.*GlobalIndex\.hash"])]
+            if ge and gb and all(K.src_match(b.operand_sources(c.args[1]), [r"field:.*GlobalIndex\.hash"]) for c in ge):
+                R.ok("prov/fork-same-hash/" + fn, "%s reads the dirty ext and the attached block by the same index.hash" % fn, [ge[0].where(), gb[0].where()])
+            else:
+                R.bad("prov/fork-same-hash/" + fn, "%s: the dirty ext and the attached block are not both read by index.hash" % fn, [b.where()])
+    R.guard("paired/fork-ends", fork_alignment)
